@@ -169,6 +169,7 @@ def run(rep):
                 if rng.random() < 0.2 and all(32 < c < 127 for c in name):
                     skip.append(hx(name))
         reqs.append({"fn": "git_index", "v": v, "items": its, "skip": skip})
+    nskip = 0
     for q, r in zip(reqs, impl.run(reqs)):
         rep.case("git-index", key=repr(q), nontrivial=len(q["items"]) > 1)
         if "giterr" in r:
@@ -176,11 +177,11 @@ def run(rep):
             continue
         if "exc" in r or r.get("got") != r.get("want"):
             rep.fail("dulwich-reads-git-index", "dulwich reads a git-written index differently from git ls-files", q, got=str(r)[:400])
-        elif sorted(q["skip"]) != r.get("skipped") and q["v"] >= 2:
+        elif r.get("git_skipped") != r.get("skipped") and q["v"] >= 2:
             rep.fail("dulwich-reads-git-index", "skip-worktree bits differ", q, got=r.get("skipped"))
         else:
-            # model reads git's file too
-            pass
+            nskip += len(r.get("skipped") or [])
+    rep.extra["skip_worktree_entries_compared"] = nskip
     # model reads the git-written files (entries only; extensions/trailer are the unread rest)
     files = [r["file"] for r in impl.run(reqs[:10]) if isinstance(r, dict) and "file" in r and "got" in r]
     for f, m in zip(files, model.run(["read_index " + f for f in files])):
